@@ -150,11 +150,12 @@ def concrete(x):
 class SV:
     """Symbolic scalar: kind 'i' (mathematical integer), 'r' (real), 'b' (bool)."""
 
-    __slots__ = ("t", "k")
+    __slots__ = ("t", "k", "dt")
     __array_priority__ = 1000
 
     def __init__(self, t, k=None):
         self.t = t
+        self.dt = None  # numpy scalar dtype when the value was read out of an array
         if k is None:
             s = t.sort()
             k = "b" if s == z3.BoolSort() else ("i" if s == z3.IntSort() else "r")
@@ -788,7 +789,9 @@ def explore(name, body, max_paths=4000, on_exception=None):
             if n not in res.notes:
                 res.notes.append(n)
         for cname, r in p.covers:
-            res.covers[cname] = "sat" if (r == "sat" or res.covers.get(cname) == "sat") else r
+            prev = res.covers.get(cname)
+            rank = {"sat": 2, "unknown": 1, "unsat": 0}
+            res.covers[cname] = r if prev is None or rank.get(r, 0) > rank.get(prev, 0) else prev
         for ob in p.obligations:
             a = agg.get(ob.name)
             if a is None:
